@@ -2,6 +2,7 @@
 //!   log=<path>      append one JSON record per call (strict DIMACS verdict on the instance received)
 //!   cnt=<path>      process-wide call counter file (for fail=...@k)
 //!   pad=<N>         N bytes of comment lines before the answer
+//!   prefer=min|max  which model is reported (lexicographically smallest / largest)
 //!   vwidth=<W>      literals per `v` line (default 8)
 //!   reply=<path>    print the file's bytes verbatim instead of solving (echo-file mode)
 //!   replyhex=<hex>  print these bytes verbatim instead of solving
@@ -168,7 +169,13 @@ fn main() {
     // solve
     let nv = rep.header_vars.unwrap_or(0).max(rep.max_var);
     let vars = dpll::occurring_vars(&rep.clauses, &[]);
-    let (models, _) = dpll::all_models(&rep.clauses, &[], &vars, 1);
+    // prefer=min (default): lexicographically smallest model; prefer=max: the largest one
+    let prefer_max = opt(&args, "prefer") == Some("max");
+    let (mut models, _) = dpll::all_models(&rep.clauses, &[], &vars, if prefer_max { 1 << 16 } else { 1 });
+    if prefer_max && models.len() > 1 {
+        let last = models.pop().unwrap();
+        models = vec![last];
+    }
     if models.is_empty() {
         let _ = out.write_all(b"s UNSATISFIABLE\n");
         let _ = out.flush();
